@@ -299,6 +299,16 @@ func (in *inliner) src(file *ast.File) []byte {
 
 func (in *inliner) off(p token.Pos) int { return in.pk.Fset.Position(p).Offset }
 
+// lineDir is a //line directive that makes the text after it count as line `line` of the file p lies in (positions as the reader of the
+// original sources knows them; directives of earlier rounds are honoured by Position).
+func (in *inliner) lineDir(p token.Pos, deltaLines int) string {
+	ps := in.pk.Fset.Position(p)
+	if !ps.IsValid() || ps.Filename == "" {
+		return ""
+	}
+	return fmt.Sprintf("//line %s:%d\n", ps.Filename, ps.Line+deltaLines)
+}
+
 // run inlines, in this package, every new private helper that calls no other new helper, at all its call sites; returns the helpers removed.
 func (in *inliner) run() []string {
 	info := in.pk.TypesInfo
@@ -522,7 +532,7 @@ func (in *inliner) run() []string {
 		if c.delStmt != nil {
 			s, e = in.off(c.delStmt.Pos()), in.off(c.delStmt.End())
 		}
-		edits[c.file] = append(edits[c.file], edit{s, e, ""})
+		edits[c.file] = append(edits[c.file], edit{s, e, "\n" + in.lineDir(c.decl.End(), 0)})
 		done = append(done, strings.Replace(c.key, "\t", ".", 1))
 		delete(in.keptWhy, c.key)
 	}
@@ -801,6 +811,7 @@ func (in *inliner) expand(file *ast.File, src []byte, st ast.Stmt, call *ast.Cal
 		}
 		fmt.Fprintf(&b, "var %s%s %s = %s\n_ = %s%s\n", p.name, suffix, typeStr(p.typ), v, p.name, suffix)
 	}
+	b.WriteString(in.lineDir(c.decl.Body.Lbrace, 1))
 	b.WriteString(body)
 	b.WriteString("\n}\n")
 	// tail
@@ -832,16 +843,16 @@ func (in *inliner) expand(file *ast.File, src []byte, st ast.Stmt, call *ast.Cal
 		}
 		fmt.Fprintf(&b, "%s %s %s\n", strings.Join(l, ", "), as.Tok.String(), res)
 		rest := string(src[in.off(ifs.Cond.Pos()):in.off(ifs.End())])
-		return "{\n" + b.String() + "if " + rest + "\n}\n", ""
+		return "{\n" + b.String() + in.lineDir(ifs.Cond.Pos(), 0) + "if " + rest + "\n}\n" + in.lineDir(st.End(), 0), ""
 	}
 	_ = fset
 	if form == "return" || form == "expr" || form == "assign" {
 		// keep the temporaries out of the caller's scope where the statement form allows it
 		if form != "assign" || st.(*ast.AssignStmt).Tok == token.ASSIGN {
-			return "{\n" + b.String() + "}\n", ""
+			return "{\n" + b.String() + "}\n" + in.lineDir(st.End(), 0), ""
 		}
 	}
-	return b.String(), ""
+	return b.String() + in.lineDir(st.End(), 0), ""
 }
 
 // qualifier returns a types.Qualifier for type strings written into `file` at pos; packages that the file does not import are recorded
@@ -1246,7 +1257,7 @@ func fixImports(filename string, src []byte, add map[string]string, names map[st
 		for o < len(src) && src[o] != '\n' {
 			o++
 		}
-		eds = append(eds, ed{o + 1, 0, addText.String()})
+		eds = append(eds, ed{o + 1, 0, addText.String() + fmt.Sprintf("//line %s:%d\n", filename, fs.Position(f.Name.End()).Line+1)})
 	}
 	sort.Slice(eds, func(i, j int) bool { return eds[i].off > eds[j].off })
 	out := append([]byte(nil), src...)
